@@ -26,7 +26,7 @@ theorem getK_putK (l : List (κ × Int)) (k : κ) (v : Int) (k' : κ) :
       by_cases e2 : hk = k' <;> simp [e2]
     · simp only [e, if_false, getK, ih]
       by_cases e2 : hk = k'
-      · subst e2; simp [e, Ne.symm e]
+      · subst e2; simp [Ne.symm e]
       · simp [e2]
 
 theorem getD0_putK (l : List (κ × Int)) (k : κ) (v : Int) (k' : κ) :
@@ -309,7 +309,7 @@ theorem cancelCore_inv {s s' : State} {k : Key} {rec : Int} {dd : Denom}
       unfold custGap
       by_cases e : dd = d
       · subst e
-        simp only [inDenom_self hd, hwf, and_self, true_and, false_and, if_true, if_false]; omega
+        simp only [inDenom_self hd, hwf, and_self, false_and, if_true, if_false]; omega
       · simp only [inDenom_ne hd e, e, and_false, Bool.false_eq_true, if_false]; omega
   · omega
 
@@ -407,7 +407,7 @@ theorem step_inv {s s' : State} {op : Op} (h : step s op = some s') (g : Good s.
         by_cases e : denom = d
         · subst e
           have e1 : inDenom s.assets denom ⟨debt, coll, prem, who⟩ = true := inDenom_self (k := ⟨debt, coll, prem, who⟩) hd
-          simp only [e1, hwf, and_self, true_and, false_and, if_true, if_false]; omega
+          simp only [e1, hwf, and_self, false_and, if_true, if_false]; omega
         · have e1 : inDenom s.assets d ⟨debt, coll, prem, who⟩ = false := inDenom_ne (k := ⟨debt, coll, prem, who⟩) hd e
           simp only [e1, e, and_false, Bool.false_eq_true, if_false]; omega
 
@@ -547,9 +547,9 @@ theorem sumK_le_of_imp {κ : Type} (p q : κ → Bool) (l : List (κ × Int)) (h
     simp only [sumK]
     by_cases hp : p k = true
     · simp only [hp, hpq k hp, if_true]; omega
-    · simp only [hp, if_false]
+    · simp only [hp]
       by_cases hq : q k = true
       · simp only [hq, if_true]; omega
-      · simp only [hq, if_false]; omega
+      · simp only [hq]; omega
 
 end Comdex.LimitBid
